@@ -292,6 +292,10 @@ func checkC10(c *Ctx) {
 				expr := render(snd.Chan)
 				site := mkSite("block", snd, func() string { return render(snd.Chan) }, "")
 				site.alt = canonType(snd.Chan.Type()) // a parameter, a local and a field of a session object alike
+				if ch, isCh := snd.Chan.Type().Underlying().(*types.Chan); isCh && ch.Dir() != types.SendRecv {
+					// a send-only view of the channel (`inMsgs chan<- InMsg` in a parameter object) is the same channel
+					site.alt = canonType(types.NewChan(types.SendRecv, ch.Elem()))
+				}
 				if r, ok := pm.siteReason(site); ok {
 					c.OK(P3, fn, "send on "+expr, pm.m.Pos(snd.Pos()), "reason: "+r)
 				} else {
